@@ -175,6 +175,19 @@ func c06Plan(d c06Desc) (gen1, sess, cont []refcar.Block, large bool) {
 	if r.Intn(5) == 0 {
 		sess = append(append([]refcar.Block{}, sess...), gen.BoundaryBlock(r, 700+r.Intn(2000)))
 	}
+	if d.Cfg.WholeCID && d.Puts == 0 {
+		// whole-CID stores keep blocks that share a multihash apart: the same bytes under another codec
+		// are a block of their own, acknowledged like any other
+		twin := func(b refcar.Block) refcar.Block {
+			c, _, _ := refcar.SplitCid(b.Cid)
+			codec := uint64(0x71)
+			if c.Codec == 0x71 {
+				codec = 0x55
+			}
+			return refcar.Block{Cid: refcar.MakeCidV1(codec, c.MhCode, c.Digest), Data: b.Data}
+		}
+		sess = append(append([]refcar.Block{}, sess...), twin(sess[0]), twin(gen1[0]))
+	}
 	return gen1, sess, cont, n1+ns >= 25
 }
 
